@@ -1,7 +1,7 @@
 //! suiron_harness: runs the real suiron implementation on generated inputs and prints
 //! CASE / IMPL / ORACLE / STAT lines (see out.rs).  Usage:
 //!   suiron_harness <suite> --props C06,C07 --seed N --n N [--exhaustive] [--shard i/n] [--anon] [--func]
-mod prng; mod codec; mod gen; mod refuni; mod refarith; mod out; mod capture; mod suite_unify; mod suite_engine; mod suite_builtins; mod suite_misc;
+mod prng; mod codec; mod gen; mod refuni; mod refarith; mod out; mod capture; mod suite_unify; mod suite_engine; mod suite_builtins; mod suite_misc; mod suite_timer;
 
 use out::Out;
 
@@ -76,6 +76,16 @@ fn main() {
                         _ => { eprintln!("unknown kind"); std::process::exit(2); },
                     }
                 }
+            },
+            "timer" => {
+                let cfg = suite_engine::Cfg{props};
+                if let Some(body) = arg_val(&args, "--replay-case") {
+                    if body == "timer-real" { suite_timer::run_real_timer(&mut out, &cfg, 2); }
+                    else { match suite_timer::dec_case(&body) { Some(c) => suite_timer::emit(&mut out, &cfg, &c), None => { eprintln!("cannot decode case"); std::process::exit(2); } } }
+                }
+                else if has(&args, "--real") { suite_timer::run_real_timer(&mut out, &cfg, n); }
+                else if has(&args, "--all-ticks") { suite_timer::run_all_ticks(&mut out, &cfg, seed, n); }
+                else { suite_timer::run_random(&mut out, &cfg, seed, n, has(&args, "--interleave")); }
             },
             "rename" => {
                 let cfg = suite_engine::Cfg{props};
